@@ -139,7 +139,19 @@ func (e *env) setBalance(h util.Uint160, target int64) {
 }
 
 func (e *env) setFee(key string, v int64) {
-	r := e.w.Invoke(e.w.Alpha(), e.nm, "setConfig", []byte{byte(e.seq)}, []byte(key), v)
+	// the id only names the Inner Ring's event: one event may set several keys, and ids may come back (seeded change
+	// C05-12: an update skipped because its id was seen before)
+	var id any = []byte{byte(e.seq)}
+	switch e.b.Rng.IntN(5) {
+	case 0:
+		id = []byte("one event for several keys")
+		e.b.Hit("fee-set-under-an-id-used-before")
+	case 1:
+		id = nil
+	case 2:
+		id = []byte{}
+	}
+	r := e.w.Invoke(e.w.Alpha(), e.nm, "setConfig", id, []byte(key), v)
 	e.b.Tx(1)
 	if !r.Halted() {
 		e.b.Inconclusive("setConfig failed: " + r.Fault)
